@@ -73,6 +73,36 @@ def gen_ops(rng, n):
     return ops
 
 
+def gen_deep(rng):
+    """chains far beyond depth 64 (the code has no bound there): a chain of aliases V7 -> V8 -> ... and a
+    nest of polynomials V7 = V8 + 1, V8 = V9 + 1, ...; the end is a number, a polynomial over V1, or unknown"""
+    L = rng.choice([70, 100, 150, 220])
+    ids = list(range(7, 7 + L))
+    ops = [("PVar", 0, 7), ("PSubV", 1, 0, 1), ("PVar", 2, ids[L // 2])]
+    if rng.random() < 0.5:
+        order = ids[:-1]
+        if rng.random() < 0.5:
+            rng.shuffle(order)
+        for i in order:
+            ops.append(("PSettleV", i, i + 1))
+    else:
+        for i in ids[:-1]:
+            ops += [("PVar", 3, i + 1), ("PAddC", 3, 3, rng.choice([1, -1, 2]), True), ("PSettleP", i, 3)]
+    end = rng.random()
+    if end < 0.4:
+        ops.append(("PSettleC", ids[-1], rng.choice([0, 5, -7, 512])))
+    elif end < 0.7:
+        ops += [("PVar", 4, 1), ("PAddC", 4, 4, 3, True), ("PSettleP", ids[-1], 4)]
+    elif end < 0.85:
+        ops.append(("PSettleV", ids[-1], 4))
+        if rng.random() < 0.5:
+            ops.append(("PLatentC", 4, 9))
+    if rng.random() < 0.3:
+        ops.append(("PAwait", rng.choice(ids), True))
+    ops += [("PWait", 1, rng.random() < 0.3), ("PAdd", 3, 0, 2), ("PWait", 3, False), ("PWait", 0, False), ("PWait", 2, False)]
+    return ops
+
+
 def _obs(v, names):
     if isinstance(v, int):
         return [[], v]
@@ -97,7 +127,9 @@ def drive(ops):
     impl.reset_global_state()
     LP, Promise = D.LinearPolynomial, D.Promise
     V, cell = {}, {}
-    for x in PROMISES:
+    pos = {"PVar": (2,), "PAddV": (3,), "PSubV": (3,), "PSettleC": (1,), "PSettleP": (1,), "PSettleV": (1, 2), "PAwait": (1,)}
+    extra = sorted({op[i] for op in ops for i in pos.get(op[0], ()) if op[i] > NVARS})
+    for x in list(PROMISES) + [x for x in range(NVARS + 1, (max(extra) if extra else NVARS) + 1)]:
         V[x] = Promise[int](f"P{x}")
 
     def late_fn(x):
@@ -220,7 +252,7 @@ def run(rep, pid, rng, n):
     """n random sequences; reports disagreements on rep.  Returns number of cases."""
     cases = []
     for i in range(n):
-        ops = gen_ops(rng, rng.choice([4, 8, 12, 20, 30]))
+        ops = gen_deep(rng) if i % 25 == 24 else gen_ops(rng, rng.choice([4, 8, 12, 20, 30]))
         old = signal.signal(signal.SIGALRM, _alarm)
         signal.setitimer(signal.ITIMER_REAL, 5)
         try:
